@@ -178,6 +178,10 @@ def run(ctx: common.Ctx):
     run_copy(ctx, drv)
     run_assemble(ctx, drv)
     run_cli_list(ctx, drv)
+    run_copy_history(ctx, drv)
+    run_objects(ctx, drv)
+    run_custom_processors(ctx, drv)
+    run_cli_z(ctx, drv)
     for p, c in cases[ncorpus + 5000: ncorpus + 5003]:
         ctx.sample({"pps": p, "chunks": c, "output": impl_run(p, c)})
 
@@ -419,10 +423,434 @@ def run_cli_list(ctx, drv):
     ctx.sample({"stream": "cli-list", "request": reqs[-1], "assembled": model[-1]})
 
 
+# =====================================================================================================================
+# round 2: histories of runs into one directory, processor objects, user-defined processors, integer limits on the CLI
+# =====================================================================================================================
+
+def _mk(p):
+    import nunavut._postprocessors as npp
+    return npp.TrimTrailingWhitespace() if p == "T" else npp.LimitEmptyLines(int(p[1:]))
+
+
+def _read(path):
+    with open(path, "r", encoding="utf-8", newline="") as fh:
+        return fh.read()
+
+
+def _write(path, text):
+    with open(path, "w", encoding="utf-8", newline="") as fh:
+        fh.write(text)
+
+
+def impl_copy_history(resource_text, dst0, runs, scratch):
+    """The real `SupportGenerator._copy_header`, once per run, always the same resource and the same target path.
+    runs: (pps, start, dry, allow, readonly).  Returns (per-run result, final state); state None = no such file."""
+    import nunavut._postprocessors as npp
+    from nunavut.jinja import SupportGenerator
+    gen = object.__new__(SupportGenerator)
+    src, dst = scratch / "resource.h", scratch / "out" / "resource.h"
+    _write(src, resource_text)
+    if dst.exists():
+        dst.chmod(0o644)
+        dst.unlink()
+    if dst0 is not None:
+        dst.parent.mkdir(exist_ok=True)
+        _write(dst, dst0)
+    results = []
+    for pps, start, dry, allow, readonly in runs:
+        objs = [_mk(p) for p in pps]
+        for o in objs:
+            if hasattr(o, "_empty_line_count"):
+                o._empty_line_count = start
+        file_pps = [npp.SetFileMode(0o444)] if readonly else []
+        try:
+            gen._copy_header(src, dst, dry, allow, objs, file_pps)
+            results.append(_read(dst) if dst.exists() else None)
+        except PermissionError:
+            results.append("E")
+    return results, (_read(dst) if dst.exists() else None)
+
+
+def run_copy_history(ctx, drv):
+    """Two or three runs of the support generator's copy into the SAME directory with varying processor lists: what a run
+    leaves must be a function of (resource text, that run's processors) only — not of what an earlier run left there."""
+    rng = ctx.rng
+    scratch = ctx.scratch / "copyh"
+    scratch.mkdir(exist_ok=True)
+    texts = ["", "a", "a\n", "a \n", "a \n\n\n\nb\t\n", "\n\n\n", " \n \n \nx", "a\r\n\r\n\r\nb \r\n", "x \r", "a\rb \n", "// h   \n#pragma once\t\n\n\n\nint f(void)  \r\n{\r\n}\n\n\n// end",
+             "﻿a \n", "a  \n\n\n", "tail  "]
+    for _ in range(12 if ctx.quick else 200):
+        texts.append("".join(rng.choices(ALPHABET + ["b", "\x0c"], weights=[3, 3, 1, 2, 5, 1, 1, 1], k=rng.randint(3, 24))))
+    lists = [[], ["T"], ["L0"], ["L1"], ["T", "L1"], ["L1", "T"]]
+    cases = []
+    for t in texts:
+        for a in lists:
+            for b in lists:
+                cases.append((t, None, [(a, 0, False, True, False), (b, 0, False, True, False)]))
+        # an earlier verbatim copy made read-only by SetFileMode (the CLI's default), unrelated old content, a dry run in between
+        cases.append((t, None, [([], 0, False, True, True), (["T", "L1"], 3, False, True, True), ([], 0, False, True, False)]))
+        cases.append((t, "old \n\n\n", [(["T"], 0, True, True, False), (["T"], 0, False, False, False), (["L0", "T"], 2, False, True, False)]))
+        cases.append((t, t, [(["T", "L0"], 0, False, True, False)]))
+    for _ in range(150 if ctx.quick else 3000):
+        t = rng.choice(texts)
+        runs = [(rng.choice(lists), rng.randint(0, 4), rng.random() < 0.15, rng.random() < 0.85, rng.random() < 0.3) for _ in range(rng.randint(2, 3))]
+        cases.append((t, rng.choice([None, t, "zzz\n"]), runs))
+
+    def show(x):
+        return "N" if x is None else x if x == "E" else enc(x)
+
+    reqs = ["copyh " + enc(t) + " " + ("N" if d0 is None else enc(d0)) + " "
+            + "/".join(f"{','.join(pps) or '-'};{st};{int(dry)};{int(allow)}" for pps, st, dry, allow, _ in runs) for t, d0, runs in cases]
+    flreqs = ["flines " + enc(t) for t in texts]
+    model = drv.ask(reqs + flreqs) if drv is not None else [None] * (len(reqs) + len(flreqs))
+    # the lines a file object yields (what the copy feeds to the line buffer)
+    for t, m in zip(texts, model[len(reqs):]):
+        _write(scratch / "fl.txt", t)
+        with open(scratch / "fl.txt", "r", encoding="utf-8", newline="") as fh:
+            got = "|".join(enc(l) for l in fh) or "!"
+        ctx.case(("flines", t), True)
+        if m is not None:
+            ctx.traces += 1
+            if m != got:
+                ctx.disagree("linebuf-flines", {"text": t}, m, got)
+    fresh_cache = {}
+    for (t, d0, runs), m in zip(cases, model):
+        results, final = impl_copy_history(t, d0, runs, scratch)
+        ctx.case(("copyh", t, d0, tuple((tuple(r[0]),) + r[1:] for r in runs)), True)
+        ctx.count("copy_histories")
+        got = "/".join(show(x) for x in results) + "=" + show(final)
+        if m is not None:
+            ctx.traces += 1
+            if m != got:
+                ctx.disagree("linebuf-copyh", {"resource": t, "initial": d0, "runs": runs}, m, got)
+        # the property on the implementation: every run that writes leaves reference(pps, text), whatever was there
+        state = d0
+        for k, ((pps, st, dry, allow, ro), res) in enumerate(zip(runs, results)):
+            writes = not dry and (allow or state is None)
+            if writes:
+                key = (t, tuple(pps))
+                if key not in fresh_cache:       # the same run alone, into an empty directory
+                    fresh_cache[key] = impl_copy_history(t, None, [(pps, 0, False, True, False)], scratch)[1]
+                ref = reference(pps, t)
+                if res != fresh_cache[key]:
+                    ctx.fail({"kind": "copy-depends-on-destination"},
+                             "what a support-file copy leaves depends on what an earlier run left at the destination (or on the processors' prior state)",
+                             {"resource": t, "initial": d0, "runs": runs, "run_index": k, "output": res, "fresh_directory_output": fresh_cache[key], "expected": ref})
+                    break
+                if res != ref:
+                    ctx.fail({"kind": "copy-not-linewise"},
+                             "a raw support file copied through line processors is not the processors applied line by line to its text",
+                             {"resource": t, "initial": d0, "runs": runs, "run_index": k, "pps": pps, "text": t, "output": res, "expected": ref})
+                    break
+                state = res
+            else:
+                expect = "E" if (not dry) else state
+                if res != expect:
+                    ctx.fail({"kind": "copy-dry-or-refused-run-wrote"}, "a dry run or a refused overwrite changed the destination",
+                             {"resource": t, "initial": d0, "runs": runs, "run_index": k, "output": res, "expected": expect})
+                    break
+    ctx.sample({"stream": "copy-history", "request": reqs[0], "answer": model[0]})
+    run_support_generator_history(ctx)
+
+
+def run_support_generator_history(ctx):
+    """End to end: the real SupportGenerator.generate_all for C++ (no configured line processors) twice/three times into one
+    output directory, with a hand-written non-template support header among the language's support files."""
+    import pydsdl
+    import nunavut
+    import nunavut.jinja
+    import nunavut.lang.cpp.support as cpp_support
+    from nunavut._utilities import ResourceType
+    from nunavut.lang import LanguageContextBuilder
+    scratch = ctx.scratch / "e2e"
+    (scratch / "dsdl" / "demo").mkdir(parents=True, exist_ok=True)
+    (scratch / "dsdl" / "demo" / "Thing.1.0.dsdl").write_text("uint8 value\n@sealed\n")
+    text = "// support   \n#pragma once\t\n\n\n\nstatic inline int f(void)  \r\n{\r\n    return 42;   \r\n}\n\n\n// end"
+    header = scratch / "res" / "verif_support.hpp"
+    header.parent.mkdir(exist_ok=True)
+    _write(header, text)
+    original = cpp_support.list_support_files
+
+    def listing(resource_type=ResourceType.ANY):
+        yield from original(resource_type)
+        if resource_type in (ResourceType.ANY, ResourceType.TYPE_SUPPORT):
+            yield header
+
+    histories = [[[], ["T", "L1"]], [["T"], []], [[], [], ["L0"]], [["L1", "T"], ["T", "L1"]]]
+    cpp_support.list_support_files = listing
+    try:
+        for hi, hist in enumerate(histories):
+            out = scratch / f"out{hi}"
+            lctx = LanguageContextBuilder(include_experimental_languages=True).set_target_language("cpp").create()
+            ns = nunavut.build_namespace_tree(pydsdl.read_namespace(str(scratch / "dsdl" / "demo"), []), str(scratch / "dsdl" / "demo"), str(out), lctx)
+            for k, pps in enumerate(hist):
+                nunavut.jinja.SupportGenerator(ns, post_processors=[_mk(p) for p in pps]).generate_all(False, True)
+                found = list(out.rglob("verif_support.hpp"))
+                got = _read(found[0]) if len(found) == 1 else None
+                ref = reference(pps, text)
+                ctx.case(("e2e-history", hi, k), True)
+                ctx.count("support_generator_runs_into_one_directory")
+                if got != ref:
+                    ctx.fail({"kind": "copy-depends-on-destination"},
+                             "SupportGenerator.generate_all: a copied support header is not the run's processors applied line by line (earlier runs into the same directory matter)",
+                             {"resource": text, "initial": None, "runs": [(p, 0, False, True, False) for p in hist], "run_index": k, "output": got, "expected": ref,
+                              "via": "SupportGenerator.generate_all(cpp)"})
+                    break
+    finally:
+        cpp_support.list_support_files = original
+
+
+def run_objects(ctx, drv):
+    """`__call__` / `reset` of the built-in line post-processor objects, called directly (as an API user may)."""
+    import nunavut._postprocessors as npp
+    reqs, thunks = [], []
+    contents = [""] + ["".join(t) for L in (1, 2, 3) for t in itertools.product(["a", " ", "\t", "\n", "\r", " "], repeat=L)]
+    terms = ["", "\n", "\r\n", "\r", "x"]
+    for c in contents:
+        for t in terms:
+            reqs.append(f"call T 0 {enc(c)} {enc(t)}")
+            thunks.append(("T", None, 0, c, t))
+    for n in (-2, -1, 0, 1, 2, 3):
+        for s in range(0, 5):
+            for c in ("", "a", " ", "\n"):
+                for t in ("", "\n", "\r\n"):
+                    reqs.append(f"call L{n} {s} {enc(c)} {enc(t)}")
+                    thunks.append(("L", n, s, c, t))
+            reqs.append(f"reset L{n} {s}")
+            thunks.append(("R", n, s, None, None))
+    model = drv.ask(reqs) if drv is not None else [None] * len(reqs)
+    for (kind, n, s, c, t), m in zip(thunks, model):
+        if kind == "T":
+            o = npp.TrimTrailingWhitespace()
+            r = o((c, t))
+            got = f"{enc(r[0])} {enc(r[1])} 0"
+            ok = r == (c.rstrip(), t)
+            fresh = npp.TrimTrailingWhitespace()
+            o.reset()
+            ok = ok and vars(o).keys() == vars(fresh).keys() and o((c, t)) == r
+        elif kind == "L":
+            o = npp.LimitEmptyLines(n)
+            o._empty_line_count = s
+            r = o((c, t))
+            got = f"{enc(r[0])} {enc(r[1])} {o._empty_line_count}"
+            cnt = s + 1 if c == "" else 0
+            ok = n < 0 or (r == (("", "") if cnt > n else (c, t)) and o._empty_line_count == cnt)
+        else:
+            o = npp.LimitEmptyLines(n)
+            o._empty_line_count = s
+            o.reset()
+            got = str(o._empty_line_count)
+            ok = vars(o) == vars(npp.LimitEmptyLines(n))
+        ctx.case(("object", kind, n, s, c, t), True)
+        ctx.count("processor_object_calls")
+        if m is not None:
+            ctx.traces += 1
+            if m != got:
+                ctx.disagree("linebuf-object", {"kind": kind, "n": n, "state": s, "content": c, "terminator": t}, m, got)
+        if not ok:
+            ctx.fail({"kind": "processor-object-contract"},
+                     "a built-in line post-processor object does not keep its __call__/reset contract",
+                     {"class": {"T": "TrimTrailingWhitespace", "L": "LimitEmptyLines", "R": "LimitEmptyLines.reset"}[kind], "n": n, "state": s,
+                      "content": c, "terminator": t, "observed": got})
+    ctx.sample({"stream": "objects", "request": reqs[-2], "answer": model[-2]})
+
+
+def _custom_classes():
+    import nunavut._postprocessors as npp
+
+    class C0(npp.LinePostProcessor):          # the class docstring's CommentItAllOut('/*', '*/')
+        def __call__(self, ll):
+            return ("/* {} */".format(ll[0]), ll[1]) if len(ll[0]) > 0 else ("", "")
+
+    class C1(npp.LinePostProcessor):          # a programming error: None for the line "x"
+        def __call__(self, ll):
+            return None if ll[0] == "x" else ll
+
+    class C2(npp.LinePostProcessor):          # keeps state, does not override reset()
+        def __init__(self):
+            self.k = 0
+
+        def __call__(self, ll):
+            self.k += 1
+            return (("#" if self.k % 2 == 1 else "") + ll[0], ll[1])
+
+    class C3(C2):                             # ... and with the documented reset()
+        def reset(self):
+            self.k = 0
+
+    return [C0, C1, C2, C3]
+
+
+def run_custom_processors(ctx, drv):
+    """User-defined LinePostProcessor subclasses (alone and mixed with the built-in ones) through the real `_generate_code`,
+    several files per run: chunking independence and per-file independence under the documented reset() contract."""
+    import types
+    from nunavut.jinja import DSDLCodeGenerator
+    rng = ctx.rng
+    classes = _custom_classes()
+    scratch = ctx.scratch / "custom"
+    scratch.mkdir(exist_ok=True)
+
+    def make(tok, start):
+        if tok[0] == "C":
+            o = classes[int(tok[1:])]()
+            if hasattr(o, "k"):
+                o.k = start
+            return o
+        o = _mk(tok)
+        if hasattr(o, "_empty_line_count"):
+            o._empty_line_count = start
+        return o
+
+    def impl(procs, start, files):
+        gen = object.__new__(DSDLCodeGenerator)
+        gen._env = types.SimpleNamespace()
+        gen._post_processors = [make(t, start) for t in procs]
+        out = []
+        for i, chunks in enumerate(files):
+            path = scratch / f"f{i}.txt"
+            if path.exists():
+                path.unlink()
+            raised = False
+            try:
+                gen._generate_code(path, None, (c for c in chunks), True)
+            except ValueError:
+                raised = True
+            out.append((_read(path), raised))
+            if raised:
+                break
+        return out
+
+    toks = ["C0", "C1", "C2", "C3", "T", "L1", "L0", "L-1"]
+    lists = [[a] for a in toks] + [[a, b] for a in toks for b in toks if a[0] == "C" or b[0] == "C"]
+    pool = ["", "a\n", "x\n", "a \n\n\nx\nb", "\n\n", "a\r\nx \r\n", "x", "b \n \n \n", "a\n\nb\n"]
+    cases = []
+    for procs in lists:
+        for f1 in pool[:6]:
+            cases.append((procs, 0, [f1, "a\n\nb\n"]))
+    for _ in range(300 if ctx.quick else 5000):
+        cases.append((rng.choice(lists), rng.randint(0, 3), [rng.choice(pool) + rng.choice(pool) for _ in range(rng.randint(1, 3))]))
+    chunked, reqs = [], []
+    for procs, start, texts in cases:
+        files = []
+        for t in texts:
+            L = len(t)
+            cuts = sorted(rng.choices(range(0, L + 1), k=rng.randint(0, 3))) if L else []
+            files.append([t[a:b] for a, b in zip([0] + cuts, cuts + [L])] or [""])
+        chunked.append(files)
+        reqs.append(f"pfiles {','.join(procs)} {start} " + "/".join("|".join(enc(c) for c in f) for f in files))
+    model = drv.ask(reqs) if drv is not None else [None] * len(reqs)
+    lawful = lambda procs: "C2" not in procs
+    for (procs, start, texts), files, m in zip(cases, chunked, model):
+        got = impl(procs, start, files)
+        ctx.case(("custom", tuple(procs), start, tuple(tuple(f) for f in files)), True)
+        ctx.count("runs_with_user_defined_processors")
+        if m is not None:
+            ctx.traces += 1
+            shown = "/".join(enc(t) + ":" + ("1" if r else "0") for t, r in got)
+            if m != shown:
+                ctx.disagree("linebuf-custom", {"procs": procs, "start": start, "files": files}, m, shown)
+        for k, (text, raised) in enumerate(got):
+            one = impl(procs, start, [[texts[k]]])[0]             # same file, one chunk, alone — but from the same start state
+            alone = impl(procs, 0, [[texts[k]]])[0]               # ... and from freshly constructed objects
+            if k == 0 and (text, raised) != one:
+                ctx.fail({"kind": "chunking-dependence"}, "the written file depends on how the text is cut into chunks (user-defined processors)",
+                         {"procs": procs, "start": start, "files": files, "index": k, "output": [text, raised], "single_chunk_output": list(one)})
+                break
+            if lawful(procs) and (text, raised) != alone:
+                ctx.fail({"kind": "file-depends-on-earlier-files"},
+                         "a file's post-processed text depends on the files generated before it although every processor resets itself",
+                         {"procs": procs, "start": start, "files": files, "index": k, "output": [text, raised], "alone": list(alone)})
+                break
+    ctx.sample({"stream": "custom-processors", "request": reqs[0], "answer": model[0]})
+
+
+def run_cli_z(ctx, drv):
+    """Command line -> processor list with the limit as argparse delivers it (any integer, written any way int() accepts),
+    --pp-run-program-arg, --file-mode; then _handle_post_processors TWICE on the same list (code generator and support
+    generator of one run share it)."""
+    import nunavut._postprocessors as npp
+    import nunavut.cli
+    from nunavut.cli.runners import ArgparseRunner
+    from nunavut.jinja import CodeGenerator
+
+    class FakeLanguage:
+        def __init__(self, limit, trim):
+            self.limit, self.trim = limit, trim
+
+        def get_config_value(self, key):
+            if key == "limit_empty_lines" and self.limit is not None:
+                return str(self.limit)
+            raise KeyError(key)
+
+        def get_config_value_as_bool(self, key, default_value=False):
+            return self.trim if key == "trim_trailing_whitespace" else default_value
+
+    def show(objs):
+        out = []
+        for o in objs:
+            out.append("T" if isinstance(o, npp.TrimTrailingWhitespace) else f"L{o._max_empty_lines}" if isinstance(o, npp.LimitEmptyLines)
+                       else f"P{len(o._command_line) - 1}" if isinstance(o, npp.ExternalProgramEditInPlace)
+                       else f"M{o._file_mode}" if isinstance(o, npp.SetFileMode) else "O9")
+        return ",".join(out) or "-"
+
+    parser = nunavut.cli._make_parser()
+    cases = [(tr, mx, pr, fm, lim, ctr) for tr in (False, True) for mx in (None, "0", "1", "3", "-1", "+2", "007", " 4 ")
+             for pr in (None, 0, 2) for fm in (None, 0o644) for lim in (None, 0, 1, -1) for ctr in (False, True)]
+    reqs = []
+    for tr, mx, pr, fm, lim, ctr in cases:
+        reqs.append(f"cliz {int(tr)} {'N' if mx is None else int(mx)} {'N' if pr is None else pr} {0o444 if fm is None else fm} "
+                    f"{'N' if lim is None else lim} {int(ctr)}")
+    model = drv.ask(reqs) if drv is not None else [None] * len(reqs)
+    for (tr, mx, pr, fm, lim, ctr), m in zip(cases, model):
+        argv = ["ns_dir"]
+        if tr:
+            argv.append("--pp-trim-trailing-whitespace")
+        if mx is not None:
+            argv.append("--pp-max-emptylines=" + mx)
+        if pr is not None:
+            argv += ["--pp-run-program", "true"] + ["--pp-run-program-arg=-x"] * pr
+        if fm is not None:
+            argv += ["--file-mode", oct(fm)]
+        runner = object.__new__(ArgparseRunner)
+        runner._args = parser.parse_args(argv)
+        shared = runner._build_post_processor_list_from_args()
+        lang = FakeLanguage(lim, ctr)
+        first = CodeGenerator._handle_post_processors(lang, shared)        # DSDLCodeGenerator.__init__
+        first_shown = show(first)
+        second = CodeGenerator._handle_post_processors(lang, shared)       # SupportGenerator.__init__, same list object
+        got = show(second)
+        lines = ",".join(t for t in got.split(",") if t[0] in "TL") or "-"
+        ctx.case(("cli-z", tr, mx, pr, fm, lim, ctr), True)
+        ctx.count("cli_processor_lists_integer_limits")
+        if m is not None:
+            ctx.traces += 1
+            if m != got + ";" + lines or first_shown != got:
+                ctx.disagree("linebuf-cliz", {"argv": argv, "limit_empty_lines": lim, "trim_trailing_whitespace": ctr}, m, first_shown + " then " + got + ";" + lines)
+        items = got.split(",")
+        limits = [t for t in items if t.startswith("L")]
+        want = int(mx) if mx is not None else lim
+        ok = (limits == ([f"L{want}"] if want is not None else [])) and items.count("T") == (1 if (tr or ctr) else 0) \
+            and items.count(f"M{0o444 if fm is None else fm}") == 1 and (pr is None) == (not any(t.startswith("P") for t in items)) \
+            and (pr is None or f"P{pr}" in items) and first is second
+        if not ok:
+            ctx.fail({"kind": "cli-processor-list"},
+                     "the processors of a CLI run are not the ones the command line (and the language configuration) ask for",
+                     {"argv": argv, "limit_empty_lines": lim, "trim_trailing_whitespace": ctr, "assembled": got})
+    ctx.sample({"stream": "cli-integer-limits", "request": reqs[-1], "assembled": model[-1]})
+
+
 def replay(ctx, path):
     r = json.loads(open(path).read())
     rp = r.get("replay", {})
-    if "pps" in rp:
+    if "runs" in rp and "resource" in rp:
+        results, final = impl_copy_history(rp["resource"], rp.get("initial"), [tuple(x) for x in rp["runs"]], ctx.scratch)
+        k = rp.get("run_index", len(results) - 1)
+        exp = reference(rp["runs"][k][0], rp["resource"])
+        print(json.dumps({"results": results, "run_index": k, "expected": exp}))
+        ctx.cleanup()
+        return 0 if results[k] == exp else 1
+    if "pps" in rp and "chunks" in rp:
         got = impl_run(rp["pps"], rp["chunks"])
         one = impl_run(rp["pps"], ["".join(rp["chunks"])])
         ref = reference(rp["pps"], "".join(rp["chunks"]))
